@@ -93,9 +93,14 @@ def _math(I):
     def floor(I_, a, k):
         if isinstance(a[0], (int, float)):
             return math.floor(a[0])
-        hook = getattr(I_, "float_model", None)
-        if hook is not None:
-            return hook.floor(I_, a[0])
+        v = a[0]
+        if isinstance(v, Sym):
+            k = I_.kind(v)
+            if k == "int":
+                return v
+            if k == "real":
+                return Sym(smt.VInt(z3.ToInt(smt.get_x(v.term))))
+            I_.raise_builtin("TypeError", "must be real number, not %s" % k)
         raise OutOfReach("math.floor symbolic")
     return module("math", floor=Native("floor", floor))
 
